@@ -23,14 +23,20 @@ CONSTANTS
  ExtraPids = {9}
  Rcs = {0, 128}
  Cleans = {FALSE}
- SPs = {TRUE}
  KAs = {0}
- RMs = {1, 2}
- TAMs = {99999}
- MPSs = {99999}
- SEIs = {10}
- SKAs = {99999}
+ ConnRMs = {99999}
+ ConnTAMs = {99999}
+ ConnMPSs = {99999}
+ ConnSEIs = {10}
+ SPs = {TRUE}
  ConnackRcs = {0}
+ AckRMs = {1, 2}
+ AckTAMs = {99999}
+ AckMPSs = {99999}
+ AckSEIs = {99999}
+ SKAs = {99999}
+ RogueHandshake = FALSE
+ PartialFrames = FALSE
  Intervals = {}
  Fire = FALSE
  Close = TRUE
